@@ -359,11 +359,19 @@ func PEM(der []byte, crlf bool) []byte {
 
 // SimpleCRL is the common case: v2, AKI + number, signed by ca, listing serials.
 func SimpleCRL(ca *Ident, number int64, serials ...int64) *CRLSpec {
+	// as with a real CA, a list with a higher number was issued later (thisUpdate one minute apart)
+	later := number
+	if later < 0 {
+		later = 0
+	}
+	if later > 50 {
+		later = 50
+	}
 	s := &CRLSpec{
 		Version:    2,
 		Alg:        DefaultAlg(ca.Kind),
 		IssuerRaw:  ca.Cert.RawSubject,
-		ThisUpdate: vsched.Epoch.Add(-time.Hour),
+		ThisUpdate: vsched.Epoch.Add(-time.Hour + time.Duration(later)*time.Minute),
 		NextUpdate: vsched.Epoch.Add(24 * time.Hour * 30),
 		Exts:       []pkix.Extension{AKIExt(ca.Cert.SubjectKeyId, nil, nil), CRLNumberExt(number)},
 		Signer:     ca.Key,
